@@ -190,10 +190,10 @@ class Oracle:
 
     def flt_value(self, cell):
         k = cell.kind
-        pk = ('parse_f64', id(cell.s))
+        pk = ('parse_f64', S.skey(cell.s))
         if K_STRING in cell.kinds:
             if pk not in self.uni.memo:
-                self.uni.memo[pk] = (self.uni.fresh('parse_f64_ok', z3.BoolSort()), self.uni.fresh('parse_f64_val', z3.Float64()), cell.s)
+                self.uni.memo[pk] = (z3bool(__import__('mirsym.rx', fromlist=['x']).is_match(models_std.F64_GRAMMAR, True, cell.s)), self.uni.fresh('parse_f64_val', z3.Float64()), cell.s)
             pokay, pval, _ = self.uni.memo[pk]
         else:
             pokay, pval = False, z3.FPVal(0.0, z3.Float64())
